@@ -11,7 +11,7 @@ FUNCTIONS = ['uxarray.grid.geometry._pad_closed_face_nodes',
     'uxarray.grid.geometry._grid_to_polygon_geodataframe@exclude,geopandas',
     'uxarray.grid.geometry._grid_to_polygon_geodataframe@exclude,spatialpandas',
     'uxarray.grid.grid.Grid.to_geodataframe']
-STANDINS = ["geometry_export", "gdf_frames"]
+STANDINS = ["geometry_export", "gdf_frames", "cache_sequences"]
 ASSUMPTIONS = []
 EXPLANATION = ""
 LEVEL_TEXT = '_pad_closed_face_nodes proved (loop invariant): row = corners then copies of the first corner; to_linecollection / to_polycollection / to_geodataframe proved to depend only on their arguments from every cache state (polycollection returns a private deep copy; the GeoDataFrame cache-miss value is proved to be a function of exactly the cache key, over all pairs of paths); _grid_to_polygon_geodataframe proved non-interferent: its frame, NaN side table and the antimeridian side table it leaves on the grid depend on (grid, projection, project) only; vertices, antimeridian handling, data alignment bounded'
